@@ -753,6 +753,10 @@ def resume_tests(script_parts, options, features, layers, failures, errors,
     stdout = _get_output_buffer(sys.stdout)
     while ready_threads or running_threads:
         while len(running_threads) < options.processes and ready_threads:
+            if options.stop_on_error and (failures or errors):
+                # --stop-on-error: do not start the remaining layers
+                del ready_threads[:]
+                break
             thread = ready_threads.pop(0)
             thread.start()
             running_threads.append(thread)
